@@ -49,7 +49,7 @@ def shards(tier, quick_len=4, thorough_len=6, quick_random=350, thorough_random=
     # slot written twice) x fate of the value x framing, over two harmless globals
     out += [{"kind": "cells", "tier": tier, "part": i, "nparts": 8} for i in range(8)]
     # one attribute name in two modules, every global dead before the next one is resolved
-    out += [{"kind": "dupkeys"}]
+    out += [{"kind": "dupkeys"}, {"kind": "ext"}]
     out += [{"kind": "rebinding", "part": i, "nparts": 4, "k": 3 if tier == "quick" else 4} for i in range(4)]
     per = quick_random if tier == "quick" else thorough_random
     out += [{"kind": "random", "n": per, "idx": i} for i in range(16)]
@@ -92,6 +92,44 @@ def dupkey_programs():
             }
             for cname, data in contexts.items():
                 yield (bname, cname), data
+
+
+EXT_REGISTRY = (("verif_sink", "sink", 0x42), ("os", "getpid", 300), ("collections", "OrderedDict", 70000))
+
+
+class ext_registry:
+    """context manager: the extension registry holds EXT_REGISTRY while the block runs"""
+
+    def __enter__(self):
+        import copyreg
+
+        for m, nm, code in EXT_REGISTRY:
+            copyreg.add_extension(m, nm, code)
+
+    def __exit__(self, *a):
+        import copyreg
+
+        for m, nm, code in EXT_REGISTRY:
+            copyreg.remove_extension(m, nm, code)
+        copyreg._extension_cache.clear()
+
+
+def ext_programs():
+    """globals reached through the extension registry (copyreg.add_extension; EXT1/EXT2/EXT4): the
+    VM resolves the registered (module, name) - the program must show that import and call, or
+    the pickle is refused"""
+    import struct
+
+    codes = {0x42: b"\x82\x42", 300: b"\x83" + struct.pack("<H", 300), 70000: b"\x84" + struct.pack("<i", 70000)}
+    for _m, _n, code in EXT_REGISTRY:
+        e = codes[code]
+        for proto in (b"", b"\x80\x02", b"\x80\x04"):
+            yield proto + e + b")R."
+            yield proto + e + b"(K\x01tR."
+            yield proto + b"(" + e + b"K\x01o."
+            yield proto + e + b"."
+            yield proto + b"]" + e + b"a."
+            yield proto + e + b"q\x00)Rh\x00\x86."
 
 
 def rebinding_program(seq):
@@ -180,6 +218,18 @@ def run_shard(spec, seed, judge, nt_prog, nt_bytes, focus=None, full=None):
                 break
         res.exhaustive = True
         res.extra["product_cells"] = n
+    elif spec["kind"] == "ext":
+        with ext_registry():
+            n = 0
+            for data in ext_programs():
+                f, klass = judge(data, None)
+                n += 1
+                res.note(None, True, klass=[klass, "ext"], sample={"ext": data.hex()})
+                if f is not None:
+                    f.case["ext_registry"] = True
+                    res.failures.append(f)
+                    break
+            res.extra["ext_programs"] = n
     elif spec["kind"] == "dupkeys":
         n = 0
         for tag, data in dupkey_programs():
